@@ -79,6 +79,14 @@ def r20_2(ctx: Ctx) -> None:
         ctx.check(ok, "R20.2", rd, c, "packed input is read at most one block at a time", "_read_data reads packed input without a min(..., block_size) bound (e.g. the whole remaining stream)")
         sites.append(c)
     cp = ctx.prog.func("compressor", "SevenZipCompressor.compress")
+    # a read without a size, or the bound method handed to iter() / a helper (`iter(fd.read, b"")` calls it without a size): the whole source at once
+    for x in walk(cp.node):
+        unsized = isinstance(x, ast.Call) and attr_tail(x) == "read" and not x.args and not x.keywords
+        as_value = isinstance(x, ast.Call) and any(isinstance(a_, ast.Attribute) and a_.attr == "read" for a_ in x.args)
+        if unsized or as_value:
+            ctx.fail("R20.2", cp, x, f"`{norm(x)[:60]}` reads the source without a block size: the whole member is read and compressed in one piece (identical output, peak memory of the "
+                     "member's size: 900 MiB for a 900 MiB source)", construct="source read without a block size")
+            sites.append(x)
     for c in [c for c in q.calls(cp) if attr_tail(c) == "read"]:
         ok = bool(c.args) and "_block_size" in norm(c.args[0])
         ctx.check(ok, "R20.2", cp, c, "source is read one block at a time", "SevenZipCompressor.compress reads the source without a block-size bound (whole file in memory)")
